@@ -232,6 +232,8 @@ func (bd *builder) build(r *rv) value.Value {
 		case "concat":
 			h := len(items) / 2
 			return bd.must("p+q", []string{"p", "q"}, value.NewList(items[:h:h]...), value.NewList(items[h:]...))
+		case "evaluated": // lazily produced, then materialised by the library
+			return bd.must("l.map(e->e).eval()", []string{"l"}, value.NewList(items...))
 		case "mixed": // front of unknown size + back of known size
 			h := len(items) / 2
 			return bd.must("p.accept(e->true)+q", []string{"p", "q"}, value.NewList(items[:h:h]...), value.NewList(items[h:]...))
